@@ -140,6 +140,19 @@ Proof.
   apply convex_hull_ijv_correct; [exact ND|]. intros x Hx. exact (proj1 (proj1 (Hbox x Hx))).
 Qed.
 
+(* the two correspondence entry points (wire format in, wire format out) agree on every request whose
+   rows lie in the box: the as-written entry is the one compared with the compiled kernel, the exact
+   entry is the one the C02 theorems speak about *)
+Theorem entry_hull_ijv_w_exact : forall M x, M * M < 2147483648 ->
+  (forall r, In r (as_rows (arg 0 x)) -> inbox M (r_pt r)) ->
+  entry_hull_ijv_w x = entry_hull_ijv x.
+Proof.
+  intros M x HM Hbox. unfold entry_hull_ijv_w, entry_hull_ijv.
+  destruct (as_rows (arg 0 x)) as [|r0 t] eqn:E; [reflexivity|].
+  destruct (kernel_accepts (r0 :: t) (as_Zs (arg 1 x))); [|reflexivity].
+  rewrite (convex_hull_ijv_w_exact M) by assumption. reflexivity.
+Qed.
+
 (* non-vacuity, and the as-written model really is a different function above the bound *)
 Example convex_hull_ijv_w_exact_ex :
   let ijv := [((0,0),2);((1,1),1);((0,3),2);((2,0),1);((3,3),2)] in
